@@ -124,7 +124,7 @@ pub fn c07_sparse_large_n3_m4() {
 }
 
 // Through AdjacencyListWeighted<isize> (map model), <= 4 arcs on 3 vertices.
-// @verif prop=C07 tier=quick fl=f2 role=repr/small-weights t=1200 mem=14
+// @verif prop=C07 tier=quick fl=f2 feat=map4 role=repr/small-weights t=1200 mem=14
 #[cfg_attr(kani, kani::proof)]
 #[cfg_attr(kani, kani::unwind(10))]
 pub fn c07_repr_n3_m4() {
